@@ -772,11 +772,19 @@ def emit(repo, pid, out_path):
         default = ("intros; cbv [GEN %s olift1 olift2 option_map Rltb Rleb Reqb truthy_oz]; "
                    "cbn [nadd nsub nmul ndiv nopp nabs nsqrt nofZ nltb n0 n1 ROps]; tie_split; tie_close" % spec.get("unfold", ""))
         proof = "Proof. %s. Qed." % spec.get("tactic", default).replace("GEN", gname)
-        chunks.append("(* %s *)\n%s\n%s\n%s\nPrint Assumptions tie_%s.\n" % (rec["source"], d, stmt, proof, spec["name"]))
+        cors = ""
+        for cname, cstmt, cproof in spec.get("corollaries", []):
+            cors += "Theorem src_%s : %s.\nProof. %s. Qed.\nPrint Assumptions src_%s.\n" % (
+                cname, cstmt.replace("GEN", gname), cproof.replace("GEN", gname).replace("TIE", "tie_" + spec["name"]), cname)
+            rec.setdefault("corollaries", []).append("src_" + cname)
+            imports |= set(spec.get("cor_imports", []))
+        chunks.append("(* %s *)\n%s\n%s\n%s\nPrint Assumptions tie_%s.\n%s" % (rec["source"], d, stmt, proof, spec["name"], cors))
         rec["status"] = "translated"
     head = ("(* GENERATED on every run by harness/srctie.py from /repo's current source — do not edit. *)\n"
             "From Coq Require Import List ZArith Bool Reals Lra Lia ZifyBool Psatz.\n"
-            "From QModel Require Import Num %s.\nFrom QTheory Require Import RInst TieLib.\nImport ListNotations.\n\n" % " ".join(sorted(imports)))
+            "From QModel Require Import Num %s.\nFrom QTheory Require Import RInst TieLib %s.\nImport ListNotations.\n\n"
+            % (" ".join(sorted(i for i in imports if not i.endswith("T") and not i.endswith("R"))),
+               " ".join(sorted(i for i in imports if i.endswith("T") or i.endswith("R")))))
     with open(out_path, "w") as f:
         f.write(head + "\n".join(chunks))
     return recs
